@@ -12,7 +12,7 @@ from . import c01, c06, c07
 PROP = "C12"
 
 FN_PROFILE = dict(p_async=1.0, p_unsafe=0.0, p_extern=0.0, p_const=0.0,
-                  deps_kinds=["generic_ref"] * 4 + ["impl_ref"] * 3 + ["no_deps", "concrete_ref"],
+                  deps_kinds=["generic_ref"] * 4 + ["impl_ref"] * 3 + ["no_deps", "concrete_ref", "generic_val", "impl_val"],
                   types=["i32", "i32", "u8", "bool", "str", "String", "tup", "N", "opt", "arr"],
                   forms=["plain"] * 6 + ["wild", "destr"],
                   rets=["unit", "owned", "owned", "borrow_deps", "borrow_arg", "generic", "impl_dbg"])
@@ -48,7 +48,9 @@ def fnmod_case(cid, rng, no_send):
     P = ["fn __c12_probe<__X: %s>(x: &__X) {" % tpath]
     extra = []
     for fi, f in enumerate(b.fns):
-        if f.deps_kind.startswith("concrete"):
+        if f.deps_kind.startswith("concrete") or f.by_value():
+            # (a fn taking its dependency by value is driven by the differential driver only; next to borrowing fns of the same
+            # module it asks `Send` of the application on top of `Sync`, never instead of it)
             continue
         s1, e1, _d = f.call_args(70, "p%d" % fi)
         P += ["    " + s for s in s1]
@@ -62,7 +64,7 @@ def fnmod_case(cid, rng, no_send):
     drv = drv[:-1] + ["    __c12_probe(&app);"] + extra + ["}"]
     src = ["", __import__("framework.gen.fncases", fromlist=["APP_DEF"]).APP_DEF] + b.support() + b.lines + P + drv
     meta = dict(b.meta)
-    meta.update({"family": "fnmod", "no_send": no_send, "async_methods": [f.name for f in b.fns if not f.deps_kind.startswith("concrete")],
+    meta.update({"family": "fnmod", "no_send": no_send, "async_methods": [f.name for f in b.fns if not f.deps_kind.startswith("concrete") and not f.by_value()],
                  "async_trait": None, "nontrivial": True, "rets": [f.ret for f in b.fns]})
     return Case(cid, "\n".join(src) + "\n", meta=meta)
 
